@@ -17,11 +17,11 @@ FacetValues == [
     sig     |-> {"ok", "wrongkey", "bitflip"},
     sid     |-> {"ok", "bad"},
     eesig   |-> {"peer", "other"},
-    eetime  |-> {"ok", "expired", "notyet"},
+    eetime  |-> {"ok", "expired", "notyet", "inverted"},   \* inverted: notBefore after notAfter, the evaluation time between them
     eeca    |-> {"no", "ext_false", "yes"},       \* Basic Constraints absent / present with cA = FALSE (still not a CA) / cA = TRUE
     eeaki   |-> {"peer", "none", "other"},
     crlsig  |-> {"peer", "other"},
-    crltime |-> {"ok", "stale", "future"},
+    crltime |-> {"ok", "stale", "future", "inverted"},
     crlaki  |-> {"peer", "none", "other"},
     revoked |-> {"none", "other", "ee", "other_ee", "ee_other", "big_ee"},
     key     |-> {"peer", "other"} ]
